@@ -26,6 +26,13 @@ def parseOp (line : String) : Option Op :=
   | ["cfg", n, q, c] => do
     let n ← natTok n; let q ← natTok q; let c ← natTok c
     pure (.cfg n q c)
+  | ["cfg", n, q, c, h, k] => do
+    let n ← natTok n; let q ← natTok q; let c ← natTok c; let h ← natTok h; let k ← natTok k
+    -- H (hedge at once) and K (store kind) do not change the modelled behaviour
+    if h > 1 ∨ k > 1 then none else pure (.cfg n q c)
+  | ["repair", l, f, nf] => do
+    let l ← natTok l; let f ← natTok f; let nf ← natTok nf
+    pure (.repair l f nf)
   | ["crash", n] => do let n ← natTok n; pure (.crash n)
   | ["restart", n] => do let n ← natTok n; pure (.restart n)
   | ["install", n, e, t, f, w, q, pr, ak] => do
